@@ -82,6 +82,14 @@ class _NumpyFamily:
             r = abs(env[x])
             if not isinstance(r, float) or r != float(st[2]):
                 return f'abs() = {r!r} ({type(r).__name__}), maximum norm is {st[2]}'
+            # a true norm is homogeneous and definite at every magnitude the data type can hold: the same values scaled far down / up
+            for s in (1e-170, 1e-300, 1e150, 1e300):
+                y = type(env[x])(env[x])
+                y[:] = np.asarray(env[x]) * s
+                want = float(np.max(np.abs(np.asarray(y)))) if np.asarray(y).size else 0.0
+                got = abs(y)
+                if not (got == want or abs(got - want) <= 4 * np.spacing(want)):
+                    return f'abs() of the values scaled by {s} = {got!r}, maximum modulus is {want!r}'
         return None
 
 
